@@ -1,10 +1,14 @@
 mod c04;
+mod c19;
+#[global_allocator]
+static ALLOC: c19::Counting = c19::Counting;
 mod fx;
 mod model;
 mod oracle;
 mod ph;
 mod props;
 mod props2;
+mod props3;
 mod sess;
 mod ffi;
 mod tables;
@@ -39,6 +43,16 @@ fn main() {
             let t = tables::dump(&probe);
             std::fs::write(&a["out"], serde_json::to_string(&t).unwrap()).unwrap();
         }
+        "replay" => {
+            let v: serde_json::Value = serde_json::from_str(&std::fs::read_to_string(&a["file"]).expect("replay file")).expect("json");
+            let _ = sess::load_keychars(&a["meta"]);
+            // accepts a replay file of ./check (the case sits under "replay"), a failure record, or a bare session
+            let case = if v.get("replay").is_some() { v["replay"].clone() } else { v };
+            let idx: Option<usize> = a.get("index").and_then(|s| s.parse().ok());
+            let case = match (case.as_array(), idx) { (Some(arr), Some(i)) => arr[i].clone(), _ => case };
+            let case = if case.get("last_events_then_the_running_one").is_some() { serde_json::json!({"initial": case["initial"], "events": case["last_events_then_the_running_one"]}) } else { case };
+            std::process::exit(sess::replay(oracle::Data::load(), &case));
+        }
         "stream" => {
             let name = args.get(2).map(String::as_str).unwrap_or("");
             let tier = a.get("tier").cloned().unwrap_or_else(|| "quick".into());
@@ -60,6 +74,10 @@ fn main() {
                 "c15" => props2::c15(&tier, seed, &a["meta"]),
                 "c16" => props2::c16(&tier, seed, &a["meta"]),
                 "c17" => props2::c17(&tier, seed, &a["meta"]),
+                "c10" => props3::c10(&tier, seed, &a["meta"]),
+                "c11" => props3::c11(&tier, seed, &a["meta"]),
+                "c01" => { props3::install_crash_handler(); props3::c01(&tier, seed, &a["meta"]) }
+                "c19" => c19::c19(&tier, seed, &a["meta"]),
                 "c02" => props::c02(&tier, seed, &a["meta"]),
                 "c03" => props::c03(&tier, seed, &a["meta"]),
                 "c12" => fx::c12(&tier, seed, &a["meta"]),
